@@ -178,6 +178,159 @@ def impl_f2(case):
     return {"net": out}
 
 
+# ------------------------------------------------------------- F2, continued: references inside slices / concatenations
+
+F2C_PORTS = [("a", 2), ("b", 1), ("c", 3)]
+
+
+def gen_f2c(rng):
+    """instances of one external module; some ports on declared signals, some only referenced; one more instance whose ports
+    are connected to compounds (slices / concatenations) that contain references"""
+    ninst = rng.randint(2, 4)
+    plain = {}
+    for i in range(ninst):
+        for p, w in F2C_PORTS:
+            r = rng.random()
+            plain[f"i{i}.{p}"] = {"k": "sig", "n": f"s{i}{p}", "w": w} if r < 0.5 else None  # None: only referenced -> implicit signal
+    def atom(w):
+        """a connectable of width w over declared signals and references (references as pseudo-signals '&inst.port')"""
+        r = rng.random()
+        cands = [(k, pw) for k in plain for (pn, pw) in F2C_PORTS if k.endswith("." + pn)]
+        if r < 0.45:
+            k, pw = rng.choice([c for c in cands if c[1] >= w])
+            ref = {"k": "sig", "n": "&" + k, "w": pw}
+            if pw == w and rng.random() < 0.5:
+                return ref
+            a = rng.randint(0, pw - w)
+            return {"k": "slice", "p": ref, "i": {"i": a} if w == 1 and rng.random() < 0.5 else {"s": a, "e": a + w, "st": None}}
+        if r < 0.7:
+            a = rng.randint(0, 4 - w)
+            return {"k": "slice", "p": {"k": "sig", "n": "big", "w": 4}, "i": {"s": a, "e": a + w, "st": None}} if w < 4 else {"k": "sig", "n": "big", "w": 4}
+        if w >= 2:
+            k = rng.randint(1, w - 1)
+            return {"k": "concat", "ps": [atom(k), atom(w - k)]}
+        return {"k": "sig", "n": "one", "w": 1}
+    tconns = []
+    for p, w in F2C_PORTS:
+        c = atom(w)
+        if rng.random() < 0.3:
+            c = {"k": "slice", "p": {"k": "concat", "ps": [c, atom(1)]}, "i": {"s": 0, "e": w, "st": None}}
+        tconns.append([p, c])
+    used = {r for _, c in tconns for r in refs_in(c)}
+    for k in plain:
+        if plain[k] is None and k not in used:  # neither connected nor referenced would be ill-formed
+            pw = next(w for p, w in F2C_PORTS if k.endswith("." + p))
+            plain[k] = {"k": "sig", "n": "s" + k.replace(".", "").replace("i", "", 1), "w": pw}
+    return {"ninst": ninst, "plain": plain, "tconns": tconns}
+
+
+def refs_in(c):
+    if c["k"] == "sig":
+        return [c["n"][1:]] if c["n"].startswith("&") else []
+    if c["k"] == "slice":
+        return refs_in(c["p"])
+    return [r for p in c["ps"] for r in refs_in(p)]
+
+
+def pybits(c):
+    if isinstance(c, h.Signal):
+        return [(c.name, i) for i in range(c.width)]
+    if isinstance(c, h.Slice):
+        b = pybits(c.parent)
+        return [b[c.index]] if isinstance(c.index, int) else b[c.index]
+    if isinstance(c, h.Concat):
+        return [x for p in c.parts for x in pybits(p)]
+    raise TypeError(type(c).__name__)
+
+
+def impl_f2c(case):
+    E = h.ExternalModule(name="Ef2c", port_list=[h.Port(name=p, width=w) for p, w in F2C_PORTS], paramtype=h.HasNoParams)
+    m = h.Module(name="F2cTop")
+    m.add(h.Signal(name="big", width=4)); m.add(h.Signal(name="one", width=1))
+    insts = {}
+    for i in range(case["ninst"]):
+        insts[f"i{i}"] = m.add(h.Instance(of=E(), name=f"i{i}"))
+    for k, c in case["plain"].items():
+        if c is not None:
+            iname, p = k.split(".")
+            insts[iname].connect(p, m.add(h.Signal(name=c["n"], width=c["w"])))
+    t = m.add(h.Instance(of=E(), name="t"))
+
+    def mk(c):
+        if c["k"] == "sig":
+            if c["n"].startswith("&"):
+                iname, p = c["n"][1:].split(".")
+                return getattr(insts[iname], p)
+            return m.get(c["n"])
+        if c["k"] == "slice":
+            i = c["i"]
+            return mk(c["p"])[i["i"]] if "i" in i else mk(c["p"])[i["s"]:i["e"]]
+        return h.Concat(*[mk(p) for p in c["ps"]])
+
+    for p, c in case["tconns"]:
+        t.connect(p, mk(c))
+    try:
+        h.elaborate(m)
+    except Exception as ex:  # noqa
+        return {"reject": common.errstr(ex)}
+    rho = {}
+    for k in case["plain"]:
+        iname, p = k.split(".")
+        conn = insts[iname].conns.get(p)
+        if isinstance(conn, h.Signal):
+            rho["&" + k] = conn.name
+    return {"rho": rho, "bits": {p: [[n, i] for n, i in pybits(t.conns[p])] for p, _ in F2C_PORTS},
+            "signals": sorted(m.signals)}
+
+
+
+def line_f2c(case, im=None):
+    return None
+
+
+def judge_f2c(case, im, mos):
+    if "reject" in im:
+        yield ("corr", f"a connection with references inside slices / concatenations was refused: {im['reject'][-200:]}")
+        return
+    for (p, c), mo in zip(case["tconns"], mos):
+        want = mo["bits"].get("ok")
+        got = im["bits"][p]
+        if want is None:
+            yield ("corr", f"t.{p}: the model refuses the written connection: {mo['bits']}")
+        elif got != [[n, i] for n, i in want]:
+            yield ("pred", {"why": f"t.{p}: the elaborated connection is not the written one with each reference replaced by the signal it resolved to",
+                            "written": c, "rho": {k: v for k, v in im["rho"].items() if k[1:] in refs_in(c)}, "got": got, "want": want})
+    # every referenced port sits on the signal the references were replaced by (whole-port F2), and that is a signal of the module
+    for k, v in im["rho"].items():
+        if v not in im["signals"]:
+            yield ("pred", f"{k} resolved to {v}, which is not a signal of the module")
+
+
+class F2cStream(common.Stream):
+    def run(self, ctx, cases):
+        rep = ctx.rep
+        cases = list(cases)
+        impls = common.pmap(impl_f2c, cases, chunk=self.chunk)
+        lines, where = [], []
+        for ci, (c, im) in enumerate(zip(cases, impls)):
+            if "rho" in im:
+                for pi, (p, conn) in enumerate(c["tconns"]):
+                    lines.append({"prop": "F2", "op": "rename", "conn": conn, "rho": [[k, v] for k, v in im["rho"].items()]})
+                    where.append(ci)
+        outs = ctx.drv.run(lines)
+        models = [[] for _ in cases]
+        for ci, o in zip(where, outs):
+            models[ci].append(o)
+        for c, im, mo in zip(cases, impls, models):
+            rep.count(self.name, json.dumps(c), nontrivial=any(refs_in(cc) for _, cc in c["tconns"]))
+            for v in judge_f2c(c, im, mo) or []:
+                rep.fail(v[0], {"stream": self.name, "case": c}, {"detail": v[1], "impl": im})
+        rep.sample({"stream": self.name, "case": cases[0], "impl": impls[0], "model": models[0]})
+
+
+SF2C = F2cStream("f2_compound", impl_f2c, line_f2c, judge_f2c, chunk=8)
+
+
 def judge_f2(case, im, mo):
     res = mo["res"]
     ports = [tuple(x) for x in case["ports"]]
@@ -258,6 +411,8 @@ def run(ctx):
         for v in judge_f2(c, im, mo):
             rep.fail(v[0], {"stream": "f2", "case": c}, {"detail": v[1], "reject": im.get("reject")})
     rep.extra["f2_stats"] = f2stats
+    # F2, continued: references inside slices and concatenations (`SConn.rename`, theorem references_inside_compounds)
+    SF2C.run(ctx, [gen_f2c(ctx.rng) for _ in range(200 if ctx.quick else 4000)])
     rep.extra["design_stats"] = stats
     rep.sample({"design": cases[2]["design"], "style": cases[2]["style"]})
 
